@@ -116,6 +116,10 @@ def run(tier, t0):
     tlsl = vlib.run_tlc("MCLocks", "MCLocksTlsLocked.cfg", workers=4, timeout=600, name="MCLocksTlsLocked")
     if tlsl.ok or "Inv is violated" not in tlsl.output:
         raise vlib.ToolError("self-test: a TLS accept under the context's write lock should violate NoStallPropagation in the model")
+    logm = vlib.tlc_must_pass(vlib.run_tlc("MCLocks", "MCLocksLog.cfg", workers=4, timeout=600, name="MCLocksLog"), "MCLocksLog")
+    logl = vlib.run_tlc("MCLocks", "MCLocksLogLocked.cfg", workers=4, timeout=600, name="MCLocksLogLocked")
+    if logl.ok or "Inv is violated" not in logl.output:
+        raise vlib.ToolError("self-test: a collector that waits for the log sink under its mutexes should violate NoStallPropagation in the model")
     origin = bb.TcpOrigin()
     topo = scen.Topology(wd, "c14", splice=True, special=True, history=50, access_log=os.path.join(wd, "access.log")).start()
     st, body = topo.p1.api(topo.api1, "/rules")
@@ -195,6 +199,38 @@ def run(tier, t0):
     origin.close()
     if not alive or panic:
         v.report("locks/proxy-died", str(panic)[:300], {})
+    # the access-log sink stops draining (a pipe nobody reads): the collector gets stuck handing records over; the API and
+    # fresh connections must not care
+    fifo = os.path.join(wd, "access.fifo")
+    if os.path.exists(fifo):
+        os.remove(fifo)
+    os.mkfifo(fifo)
+    rfd = os.open(fifo, os.O_RDONLY | os.O_NONBLOCK)      # a reader that never reads
+    origin2 = bb.TcpOrigin()
+    topo2 = scen.Topology(wd, "c14log", splice=True, special=True, history=50, access_log=fifo).start()
+    try:
+        for k in range(500):
+            try:
+                s = socket.create_connection(("127.0.0.1", topo2.ports[("http", "deny")]), timeout=3)
+                s.sendall(b"CONNECT 127.0.0.1:9 HTTP/1.1\r\n\r\n")
+                s.settimeout(3)
+                while s.recv(4096):
+                    pass
+                s.close()
+            except OSError:
+                pass
+        time.sleep(3.5)
+        st2, body2 = topo2.p1.api(topo2.api1, "/rules")
+        rb2 = json.dumps([{k: r[k] for k in ("target", "filter") if r.get(k) is not None} for r in json.loads(body2)])
+        # (POST /logrotate talks to the log task itself: with a sink that does not drain it has nobody to talk to - not probed here)
+        records += [r for r in probes(topo2, origin2, "log-sink-stalled/500-finished-connections", rb2) if r["kind"] != "api/logrotate"]
+        situations += 1
+        if not topo2.p1.alive() or topo2.p1.panicked():
+            v.report("locks/proxy-died/log-sink", str(topo2.p1.panicked())[:300], {})
+    finally:
+        topo2.p1.kill9(); topo2.p2.stop()
+        os.close(rfd)
+        origin2.close()
     pp = os.path.join(wd, "probes.ndjson")
     vlib.write_ndjson(pp, records)
     g = vlib.tlc_must_pass(vlib.run_tlc("ProbeLocks", "ProbeLocks.cfg", workers=1, timeout=300, env_extra={"PROBES": pp}), "ProbeLocks")
